@@ -481,6 +481,10 @@ impl World {
         hook: &mut dyn FnMut(&Rc<RefCell<SystemState>>),
         f: impl for<'e> FnOnce(&'e mut VEnv) -> Pin<Box<dyn Future<Output = yash_env::builtin::Result> + 'e>>,
     ) -> Ran {
+        // `$?` is not part of the job table: every command of a history starts with `$?` = 0 (the interactive
+        // `fg` hands the previous `$?` back as its own exit status next to `Divert::Interrupt`, so a status left by
+        // an earlier `( jobs %9 )` would otherwise show in the next `fg`)
+        self.env.exit_status = ExitStatus::SUCCESS;
         let r = self.drive(hook, f);
         let (stdout, stderr) = self.take_output();
         self.clear_processes();
